@@ -22,7 +22,9 @@ Guards against demanding more than the statement says (floating point only):
    * PWMs are float64 tensors (what read_meme produces).
 Relational clauses (real run versus real run): reverse complement of the sequences gives the
 mirror image with strands exchanged; FASTA == tensor input; dim=1 == dim=0; return_counts ==
-row counts; numba thread counts 1..16 give identical results; MEME file == dict of the same PWMs.
+row counts; numba thread counts 1..16 (numba.set_num_threads, capped at NUMBA_NUM_THREADS of the
+machine) give identical results; MEME file == dict of the same PWMs (each matrix followed by a
+URL line and a blank line, so that the separate read_meme property C16 is not involved).
 
 Finding keys
    last-window-not-scanned        a window at start = L - w that must be reported is not
@@ -48,7 +50,7 @@ import numba
 from tangermeme.tools import fimo as F
 
 from bounded.C11 import (ALPHA, log_odds, exact_tail, compare_table, random_pwm, one_hot, window_score,
-                         score_bins, discretise)
+                         score_bins)
 
 COMP = {'A': 'T', 'C': 'G', 'G': 'C', 'T': 'A', 'N': 'N'}
 THRESHOLDS = [1e-1, 3e-2, 1e-2, 1e-3, 1e-4, 1e-5, 1e-6]
